@@ -8,7 +8,7 @@
    routing lemma for every callback operator of the catalogue, and that the
    subscription ends at that instant with nothing after the error. *)
 From RxVerif Require Import Base.Prelude Ops.Machine Ops.MachineFacts Ops.Elementwise Ops.Aggregates
-  Ops.RaiseFacts.
+  Ops.RaiseFacts Ops.FirstRaise.
 
 Theorem C09_map_any_callback : forall A B (f : A -> res B) xs t,
   exec (op_map f) (events xs t)
@@ -100,4 +100,138 @@ Print Assumptions C09_route_scan.
 Example C09_witness :
   exec (op_map (fun x => if x =? 3 then Raise 9 else Ok (x + 1))) (events [1; 2; 3; 4] TDone)
   = [(1%nat, Next 2); (2%nat, Next 3); (3%nat, Err 9)].
+Proof. vm_compute. reflexivity. Qed.
+
+(* ---- run level: lifting a failing step to the whole run (Ops/FirstRaise.v) ------------------------------
+   [state_after m s pre = Some s']: the elements of pre were processed without the subscription ending and
+   left the machine in s' (equivalently: no terminal in the run on pre, C09_live_prefix_iff).  If the step on
+   x then fails, the run on  pre ++ x :: post ++ ANY tail  is the run on pre (unchanged), the outputs of the
+   failing step and Err e at x's position -- and nothing after it. *)
+Theorem C09_first_raise_generic :
+  forall A B (m : mealy A B) pre x post tl s k s' s'' outs e,
+    state_after m s pre = Some s' ->
+    m_next m s' x = (s'', outs, Fail e) ->
+    exec_from m s k (map Next (pre ++ x :: post) ++ tl)
+    = exec_from m s k (map Next pre)
+      ++ map (fun b => ((k + length pre)%nat, Next b)) outs ++ [((k + length pre)%nat, Err e)].
+Proof. exact @first_raise_from. Qed.
+Print Assumptions C09_first_raise_generic.
+
+(* the same for a whole subscription *)
+Theorem C09_first_raise_subscription :
+  forall A B (m : mealy A B) pre x post tl s' s'' outs e,
+    live (snd (m_pre m)) = true ->
+    state_after m (m_init m) pre = Some s' ->
+    m_next m s' x = (s'', outs, Fail e) ->
+    exec m (map Next (pre ++ x :: post) ++ tl)
+    = exec m (map Next pre) ++ map (fun b => (S (length pre), Next b)) outs ++ [(S (length pre), Err e)].
+Proof. exact @first_raise_exec. Qed.
+Print Assumptions C09_first_raise_subscription.
+
+Theorem C09_live_prefix_iff : forall A B (m : mealy A B) xs s k,
+  no_terminal (exec_from m s k (map Next xs)) = true <-> exists s', state_after m s xs = Some s'.
+Proof. exact @state_after_iff_no_terminal. Qed.
+Print Assumptions C09_live_prefix_iff.
+
+(* operator by operator: the callback returned on every element of pre and raises e on x *)
+Theorem C09_run_map_indexed : forall A B (f : A -> nat -> res B) pre x post tl e,
+  oks_i f 0 pre -> f x (length pre) = Raise e ->
+  exec (op_map_indexed f) (map Next (pre ++ x :: post) ++ tl)
+  = exec (op_map_indexed f) (map Next pre) ++ [(S (length pre), Err e)].
+Proof. exact @map_indexed_first_raise. Qed.
+Print Assumptions C09_run_map_indexed.
+
+Theorem C09_run_filter_indexed : forall A (p : A -> nat -> res bool) pre x post tl e,
+  oks_i p 0 pre -> p x (length pre) = Raise e ->
+  exec (op_filter_indexed p) (map Next (pre ++ x :: post) ++ tl)
+  = exec (op_filter_indexed p) (map Next pre) ++ [(S (length pre), Err e)].
+Proof. exact @filter_indexed_first_raise. Qed.
+Print Assumptions C09_run_filter_indexed.
+
+(* take_while: everything the predicate accepted was forwarded, then the error *)
+Theorem C09_run_take_while : forall A (p : A -> res bool) inc pre x post tl e,
+  Forall (fun y => p y = Ok true) pre -> p x = Raise e ->
+  exec (op_take_while p inc) (map Next (pre ++ x :: post) ++ tl)
+  = nexts (indexed 1 pre) ++ [(S (length pre), Err e)].
+Proof. exact @take_while_first_raise. Qed.
+Print Assumptions C09_run_take_while.
+
+(* skip_while: still skipping, so the error is the only output *)
+Theorem C09_run_skip_while : forall A (p : A -> res bool) pre x post tl e,
+  Forall (fun y => p y = Ok true) pre -> p x = Raise e ->
+  exec (op_skip_while p) (map Next (pre ++ x :: post) ++ tl) = [(S (length pre), Err e)].
+Proof. exact @skip_while_first_raise. Qed.
+Print Assumptions C09_run_skip_while.
+
+(* scan with a seed: the accumulator folded over pre is a, and f a x raises *)
+Theorem C09_run_scan_seed : forall A T (f : T -> A -> res T) seed pre x post tl a e,
+  fold_ok f seed pre = Some a -> f a x = Raise e ->
+  exec (op_scan_seed f seed) (map Next (pre ++ x :: post) ++ tl)
+  = exec (op_scan_seed f seed) (map Next pre) ++ [(S (length pre), Err e)].
+Proof. exact @scan_seed_first_raise. Qed.
+Print Assumptions C09_run_scan_seed.
+
+(* scan without a seed: the first element y is the accumulator, the callback runs from the second on *)
+Theorem C09_run_scan : forall A (f : A -> A -> res A) y pre x post tl a e,
+  fold_ok f y pre = Some a -> f a x = Raise e ->
+  exec (op_scan f) (map Next ((y :: pre) ++ x :: post) ++ tl)
+  = exec (op_scan f) (map Next (y :: pre)) ++ [(S (S (length pre)), Err e)].
+Proof. exact @scan_first_raise. Qed.
+Print Assumptions C09_run_scan.
+
+(* distinct: key mapper or comparer raising; [set] = the keys stored after pre *)
+Theorem C09_run_distinct : forall A K (key : A -> res K) (cmp : K -> K -> res bool) pre x post tl set e,
+  state_after (op_distinct key cmp) [] pre = Some set ->
+  (key x = Raise e \/ exists k, key x = Ok k /\ hs_find cmp set k = Raise e) ->
+  exec (op_distinct key cmp) (map Next (pre ++ x :: post) ++ tl)
+  = exec (op_distinct key cmp) (map Next pre) ++ [(S (length pre), Err e)].
+Proof. exact @distinct_first_raise. Qed.
+Print Assumptions C09_run_distinct.
+
+Theorem C09_run_distinct_until_changed :
+  forall A K (key : A -> res K) (cmp : K -> K -> res bool) pre x post tl cur e,
+  state_after (op_distinct_until_changed key cmp) None pre = Some cur ->
+  (key x = Raise e \/ exists k c, key x = Ok k /\ cur = Some c /\ cmp c k = Raise e) ->
+  exec (op_distinct_until_changed key cmp) (map Next (pre ++ x :: post) ++ tl)
+  = exec (op_distinct_until_changed key cmp) (map Next pre) ++ [(S (length pre), Err e)].
+Proof. exact @duc_first_raise. Qed.
+Print Assumptions C09_run_distinct_until_changed.
+
+(* max_by / min_by: key mapper OR comparer raising; nothing had been emitted, so the error is the only output *)
+Theorem C09_run_extrema_by : forall A K (key : A -> res K) (cmp : K -> K -> res Z) pre x post tl st e,
+  state_after (op_extrema_by key cmp) (None, []) pre = Some st ->
+  (key x = Raise e \/ exists k lk, key x = Ok k /\ fst st = Some lk /\ cmp k lk = Raise e) ->
+  exec (op_extrema_by key cmp) (map Next (pre ++ x :: post) ++ tl) = [(S (length pre), Err e)].
+Proof. exact @extrema_first_raise. Qed.
+Print Assumptions C09_run_extrema_by.
+
+Theorem C09_run_find : forall A (p : A -> nat -> res bool) yi pre x post tl e,
+  state_after (op_find p yi) 0%nat pre = Some (length pre) -> p x (length pre) = Raise e ->
+  exec (op_find p yi) (map Next (pre ++ x :: post) ++ tl) = [(S (length pre), Err e)].
+Proof. exact @find_first_raise. Qed.
+Print Assumptions C09_run_find.
+
+(* non-vacuity of the hypotheses: a comparer raising on the third element against a stored key (distinct),
+   a comparer raising in max_by, an accumulator raising in scan; junk after the failure is ignored *)
+Example C09_witness_distinct_comparer :
+  let cmp := fun a b : Z => if (a =? 2) && (b =? 5) then Raise 7 else Ok (a =? b) in
+  state_after (op_distinct (fun x : Z => Ok x) cmp) [] [1; 2; 1] = Some [1; 2]
+  /\ hs_find cmp [1; 2] 5 = Raise 7
+  /\ exec (op_distinct (fun x : Z => Ok x) cmp) (map Next ([1; 2; 1] ++ 5 :: [6]) ++ [Done; Next 9])
+     = [(1%nat, Next 1); (2%nat, Next 2); (4%nat, Err 7)].
+Proof. vm_compute. repeat split; reflexivity. Qed.
+Example C09_witness_extrema_comparer :
+  let cmp := fun a b : Z => if a =? 4 then Raise 8 else Ok (a - b) in
+  state_after (op_extrema_by (fun x : Z => Ok x) cmp) (None, []) [3; 1] = Some (Some 3, [3])
+  /\ exec (op_extrema_by (fun x : Z => Ok x) cmp) (map Next ([3; 1] ++ 4 :: [5]) ++ [Done]) = [(3%nat, Err 8)].
+Proof. vm_compute. split; reflexivity. Qed.
+Example C09_witness_scan :
+  let f := fun a x : Z => if x =? 0 then Raise 3 else Ok (a + x) in
+  fold_ok f 10 [1; 2] = Some 13
+  /\ exec (op_scan_seed f 10) (map Next ([1; 2] ++ 0 :: [4]) ++ [Err 99])
+     = [(1%nat, Next 11); (2%nat, Next 13); (3%nat, Err 3)].
+Proof. vm_compute. split; reflexivity. Qed.
+Example C09_witness_find_state :
+  state_after (op_find (fun (x : Z) (i : nat) => if x =? 7 then Raise 1 else Ok false) false) 0%nat [1; 2]
+  = Some 2%nat.
 Proof. vm_compute. reflexivity. Qed.
